@@ -11,6 +11,16 @@ fn main() {
         std::process::exit(2);
     }
     let sub = args[1].clone();
+    if sub == "lifecase" {
+        // vh lifecase '<script>': trace and oracle verdict of one session+link script
+        let script = args[2..].join(" ");
+        let t = vharness::life::run_script(&script);
+        println!("{}", t);
+        for v in vharness::life::direct_oracle(&script, &t) {
+            println!("VIOLATION {}", v);
+        }
+        return;
+    }
     if sub == "cutmcase" {
         // vh cutmcase <cut case line...>: trace, scenario for the model and abstract results of one case
         println!("{}", vharness::cutm::show(&args[2..].join(" ")));
@@ -68,16 +78,6 @@ fn main() {
         let t = vharness::cut::run_case(&line);
         println!("{}", t);
         for v in vharness::cut::direct_oracle(&line, &t) {
-    if sub == "lifecase" {
-        // vh lifecase '<script>': trace and oracle verdict of one session+link script
-        let script = args[2..].join(" ");
-        let t = vharness::life::run_script(&script);
-        println!("{}", t);
-        for v in vharness::life::direct_oracle(&script, &t) {
-            println!("VIOLATION {}", v);
-        }
-        return;
-    }
             println!("VIOLATION {}", v);
         }
         return;
